@@ -291,8 +291,11 @@ func (m *moduleEngine) DoneInstantiation() {
 // FunctionInstanceReference implements wasm.ModuleEngine.
 func (m *moduleEngine) FunctionInstanceReference(funcIndex wasm.Index) wasm.Reference {
 	if funcIndex < m.module.Source.ImportFunctionCount {
-		begin, _, _ := m.parent.offsets.ImportedFunctionOffset(funcIndex)
-		return uintptr(unsafe.Pointer(&m.opaque[begin]))
+		// Delegate to the defining module so that the reference points to a complete functionInstance,
+		// notably with the correct indexInModule which LookupFunction relies on. The slot in the opaque
+		// area of this module only has the executable, module context and type ID.
+		imported := &m.importedFunctions[funcIndex]
+		return imported.me.FunctionInstanceReference(imported.indexInModule + imported.me.module.Source.ImportFunctionCount)
 	}
 	localIndex := funcIndex - m.module.Source.ImportFunctionCount
 	p := m.parent
